@@ -69,7 +69,7 @@ def arm():
 def floors(tier):
     return {'programs': 1500, 'steps': 30000, 'inspections': 100000, 'invariant_evaluations': 100000, 'exc_ValueError': 1000, 'exc_TypeError': 3000,
             'exc_ZeroDivisionError': 100, 'inplace_conversions': 2000, 'extreme_steps': 2000, 'constructor_cases': 300, 'constructor_rejections': 200,
-            'constructor_boundary_accepted': 50}
+            'constructor_boundary_accepted': 50, 'augmented_assignments': 500}
 
 
 def n_cases(tier):
@@ -143,6 +143,17 @@ def run_program(ctx, idx, tier, extreme=False):
                         desc[0] = 'rbinnum'
                 if desc[0] == 'rbinnum':
                     res = bo * pool[a]
+                elif rng.random() < 0.25:
+                    # augmented assignment (a += b, a -= b, a *= x, a /= x): whatever object the statement leaves under the name
+                    # a -- a new one or the old one updated in place -- is inspected like every other object
+                    import operator as _op
+                    desc[0] = 'i' + desc[0]
+                    ctx.count('augmented_assignments')
+                    res = {'+': _op.iadd, '-': _op.isub, '*': _op.imul, '/': _op.itruediv}[op](pool[a], bo)
+                    if res is None:
+                        raise OperationReturnedNothing()
+                    if hasattr(res, 'unit'):
+                        target = a
                 else:
                     res = {'+': lambda x, y: x + y, '-': lambda x, y: x - y, '*': lambda x, y: x * y, '/': lambda x, y: x / y}[op](pool[a], bo)
                 if res is None:
